@@ -48,6 +48,7 @@ harnesses! {
 
     /// C11: the ristretto255 identity encoding (32 zero bytes; concrete bytes pushed through the engine) is refused by the
     /// trait decoder, by `PublicKey::deserialize` and by the serde path alike; public keys of a wrong length are refused
+    #[cfg_attr(kani, kani::stub(subtle::black_box, crate::verif_kani::vk::identity_bb))]
     fn gs_ristretto_pk_identity [unwind = 70] {
         let z = [0u8; 32];
         check!(Ristretto255::deserialize_pk(&z).is_err(), "ristretto255 identity accepted by KeGroup::deserialize_pk");
@@ -65,6 +66,7 @@ harnesses! {
     }
 
     /// C11: zero and non-canonical (>= l) ristretto255 scalars are refused through serde as well (boundary values)
+    #[cfg_attr(kani, kani::stub(subtle::black_box, crate::verif_kani::vk::identity_bb))]
     fn gs_ristretto_sk_serde [unwind = 70] {
         let zero = [0u8; 32];
         check!(from_flat::<PrivateKey<Ristretto255>>(&zero).is_err(), "zero ristretto255 private key accepted through serde");
